@@ -537,6 +537,8 @@ func famTyped(dir string, seed int64, tier string) {
 			repU.violate("C01", "roundtrip-bytes", fmt.Sprintf("round trip through bytes (%s, %s) fails: %v", writerFlavours[wf], readerFlavours[rf], eU2), desc)
 		}
 	}
+	typedMore(dir, seed, tier, repU, wU)
+	typedTargeted(repU, wU, r)
 	wM.flush()
 	wU.flush()
 	repM.write(dir)
